@@ -19,7 +19,7 @@ FUNCS = ['coba.encodings:InteractionsEncoder.__init__','coba.encodings:Interacti
 
 PRIMES = [2,3,5,7,11,13,17,19,23,29,31,37]
 
-SINGLE = ['x','a','xx','aa','xa','ax','xxx','aaa','xxa','xaa','axx','xxxx','aaaa','xxaa','xxxa','xaaa']
+SINGLE = ['x','a','xx','aa','xa','ax','xxx','aaa','xxa','xaa','axx','xxxx','aaaa','xxaa','xxxa','xaaa','xax','axa','axax','xaax']     # incl. spellings whose repeated letter is not adjacent
 MULTI  = [['x','a'],['a','x','xa'],['xx','x'],[1,'x'],['x',2,'xa'],['aa','xa',0.5],['xxx','aa','x'],['a','xxa','aaa'],[3]]
 
 def term_lists(tier):
@@ -241,3 +241,29 @@ def reuse(sym, ti, ncalls):
         got = enc.encode(x=X, a=A)
         ref = InteractionsEncoder(terms).encode(x=X, a=A)
         sym.check(_same(sym, got, ref), f"call {c+1} on a reused encoder differs from a fresh encoder :: terms={terms}", model=witness)
+
+
+@obligation('C20','reuse_in_place', bounds="one encoder instance, two consecutive encode() calls given the SAME list/dict objects, whose content (and for lists also length 1..3) is changed in place between the calls; the second result == a fresh encoder on the new content; terms from 8 lists",
+            functions=FUNCS, classify=classify, params=lambda tier: [dict(ti=ti) for ti in (0,2,4,6,8,16,18,20)])
+def reuse_in_place(sym, ti):
+    terms = term_lists('thorough')[ti]
+    enc = InteractionsEncoder(terms)
+    kind = sym.choice('kind', ['vec','map'])
+    n1 = sym.choice('n1', [1,2,3]); n2 = sym.choice('n2', [1,2,3])
+    witness = {}
+    def vals(tag, n):
+        out = []
+        for i in range(n):
+            nm = f'{tag}{i}'; out.append(sym.int(nm)); witness[nm] = PRIMES[len(witness) % len(PRIMES)]
+        return out
+    x1, a1, x2, a2 = vals('x1_', n1), vals('a1_', 2), vals('x2_', n2), vals('a2_', 2)
+    if kind == 'vec': X, A = list(x1), list(a1)
+    else: X, A = {f'k{i}':v for i,v in enumerate(x1)}, {'p':a1[0],'q':a1[1]}
+    first = enc.encode(x=X, a=A)
+    sym.check(_same(sym, first, InteractionsEncoder(terms).encode(x=X, a=A)), f"first call differs from a fresh encoder :: terms={terms}", model=witness)
+    if kind == 'vec': X[:] = x2; A[:] = a2
+    else:
+        X.clear(); X.update({f'k{i}':v for i,v in enumerate(x2)}); A.update({'p':a2[0],'q':a2[1]})
+    got = enc.encode(x=X, a=A)
+    ref = InteractionsEncoder(terms).encode(x=X, a=A)
+    sym.check(_same(sym, got, ref), f"second call (same objects, content changed in place) differs from a fresh encoder on the new content :: terms={terms}", model=witness)
